@@ -1,52 +1,65 @@
-"""C20 - time allocation never exceeds the clock (TimeManager::calculateTime / computeTimeForFixedLength)."""
-import re, os
+"""C20 - time allocation never exceeds the clock (assume/guarantee over importance, single IEEE operations, computeTimeForFixedLength, calculateTime)."""
+import re, os, shutil
 from pipeline import Query, Broken, VERIF
 import layout, report
 
 TUS = ['time_manager']
 CALC = '_ZN6engine11TimeManager13calculateTimeERKNS_6LimitsENS_5ColorEi'
 FIXED = '_ZN6engine11TimeManager25computeTimeForFixedLengthElii'
+IMP = '_ZN6engine10importanceEd'
 LIMITS = ('LIM_', 'Limits', '%"struct.engine::Limits"', ['timeleft', 'timeinc', 'movestogo', 'depth', 'nodes', 'movetime', 'infinite', 'searchmovesnum', 'searchmoves'])
+ASSUMED_LEMMAS = ('l_mul', 'l_mono', 'l_70')
 
 def check(ctx):
+    quick = ctx.tier == 'quick'
     m = ctx.module(TUS)
     layout.field_header(ctx, m, [LIMITS], ['types.h'])
     hp = os.path.join(VERIF, 'harness', 'c20.c')
-    cA, _, _ = ctx.translate(m, [FIXED, CALC], stubs=['@exp', '@pow'] if False else [], out='eng')   # exp/pow are external declarations: modelled in the harness
+    nmax = 200
     bins = {}
-    for part, stubs in (('A', []), ('B', [FIXED]), ('C', [])):
-        c, _, _ = ctx.translate(m, [FIXED, CALC] if part != 'B' else [CALC], stubs=stubs, out='eng')
-        import shutil
+    for part, ents, stubs, defs in (('I', [IMP], [], []), ('L', [IMP], [], []), ('A', [FIXED], [IMP], ['LL2C_FP_ABSTRACT', 'NMAX=%d' % nmax]), ('B', [CALC], [FIXED], ['LL2C_FP_ABSTRACT'])):
+        c, _, _ = ctx.translate(m, ents, stubs=stubs, out='eng')
         cp = ctx.path('eng_%s.c' % part); shutil.copy(c, cp)
-        bins[part] = (ctx.gotocc('c20' + part, [cp, hp], ['PART_' + part]), ctx.gotocc('c20w' + part, [cp, hp], ['PART_' + part, 'WITNESS']))
-    ns = [1, 2, 3, 4, 5, 6] if ctx.tier == 'quick' else [1, 2, 3, 4, 5, 6, 8, 10, 12, 16]
-    names = [('h_fixed_%d' % n, 'A', {'function': 'computeTimeForFixedLength', 'movesToGo': n, 'totalTime': '0..2^31-1 (symbolic pair T1<=T2)', 'ply': '0..1000'}, {'fixed_case.0': 1}) for n in ns]
-    names.append(('h_calc_contract', 'B', {'function': 'calculateTime with the fixed-length routine replaced by its contract', 'remaining': '0..86400000 ms (pair t1<=t2)',
-                                           'increment': '0..600000', 'movestogo': '0..200', 'ply': '0..1000', 'side': 'both'}, {}))
-    names.append(('h_calc_real_mtg3', 'C', {'function': 'calculateTime with the real fixed-length routine', 'movestogo': '1..3'}, {}))
-    if ctx.tier != 'quick': names.append(('h_calc_real_mtg5', 'C', {'function': 'calculateTime with the real fixed-length routine', 'movestogo': '1..5'}, {}))
+        bins[part] = (ctx.gotocc('c20' + part, [cp, hp], ['PART_' + part] + defs), ctx.gotocc('c20w' + part, [cp, hp], ['PART_' + part, 'WITNESS'] + defs))
+    names = [('h_importance', 'I', {'function': 'importance(x) as compiled (precise IEEE; exp/pow by contract)', 'x': '0..1500'}),
+             ('l_add', 'L', {'lemma': 'IEEE addition'}), ('l_div', 'L', {'lemma': 'IEEE division'}), ('l_trunc', 'L', {'lemma': 'double -> long truncation'}),
+             ('l_mul', 'L', {'lemma': 'IEEE multiplication range (attempted)'}), ('l_mono', 'L', {'lemma': 'IEEE multiplication monotone (attempted)'}), ('l_70', 'L', {'lemma': 'trunc(0.7*t) <= 70% (attempted)'}),
+             ('h_fixed', 'A', {'function': 'computeTimeForFixedLength as compiled; importance() and IEEE operations by contract', 'movesToGo': '1..%d (symbolic)' % nmax, 'totalTime': '0..2^31-1 (pair T1<=T2)', 'ply': '0..1000'}),
+             ('h_calc', 'B', {'function': 'calculateTime as compiled; fixed-length routine by contract (A)', 'remaining': '0..86400000 ms (pair t1<=t2)', 'increment': '0..600000', 'movestogo': '0..200', 'ply': '0..1000', 'side': 'both'})]
     qs, ws = [], []
-    to = 900 if ctx.tier == 'quick' else 3000
-    for fn, part, smp, _ in names:
+    to = 600 if quick else 3000
+    for fn, part, smp in names:
         if ctx.only and not re.search(ctx.only, fn): continue
-        us = {FIXED + '.0': 17, CALC + '.0': 201}
-        qs.append(Query(fn, bins[part][0], fn, us, timeout=to, sample=smp, max_unwind={'*': 210}))
-        ws.append(Query('w_' + fn, bins[part][1], fn, us, timeout=to, meta={'of': fn}, expect='witness', max_unwind={'*': 210}))
+        us = {FIXED + '.0': nmax + 1, CALC + '.0': 201}
+        t = to if fn not in ASSUMED_LEMMAS else (120 if quick else 1800)
+        qs.append(Query(fn, bins[part][0], fn, us, timeout=t, sample=smp, max_unwind={'*': 210}, solver='kissat' if fn not in ASSUMED_LEMMAS else 'kissat'))
+        if fn not in ASSUMED_LEMMAS: ws.append(Query('w_' + fn, bins[part][1], fn, us, timeout=to, meta={'of': fn}, expect='witness', max_unwind={'*': 210}))
     res = ctx.run_queries(qs + ws, label='c20')
     wit = [r for r in res if r.q.expect == 'witness']; res = [r for r in res if r.q.expect != 'witness']
+    assumed = [r.q.name for r in res if r.q.name in ASSUMED_LEMMAS and r.status != 'pass']
+    proved = [r.q.name for r in res if r.q.name in ASSUMED_LEMMAS and r.status == 'pass']
     def replay(ctx, r):
         ce = r.ce()
-        exe = ctx.native_bin('c20_replay', [os.path.join(VERIF, 'native', 'c20_replay.cpp')], ['time_manager'], defines=[])
-        args = [str(ce.get(k, 0)) for k in ('ce_t1', 'ce_t2', 'ce_inc', 'ce_mtg', 'ce_ply', 'ce_side')]
-        out = ctx.sh([exe] + args, ok=(0, 1))
-        path = report.save_replay(ctx, r.q.name, {'harness': r.q.name, 'inputs': ce, 'native_output': out.strip()})
-        if r.q.name.startswith('h_fixed'):
-            return {'confirmed': None, 'text': '%s: contract of the fixed-length routine violated under the libm contracts: %s' % (r.q.name, ce), 'path': path, 'key': r.q.name}
-        return {'confirmed': 'REPRODUCED' in out and 'NOT-REPRODUCED' not in out, 'key': 'calc', 'path': path, 'text': '%s inputs %s | %s' % (r.q.name, {k: ce.get(k) for k in ('ce_t1', 'ce_t2', 'ce_inc', 'ce_mtg', 'ce_ply', 'ce_side')}, out.strip()[:300])}
+        if r.q.name == 'h_calc':
+            exe = ctx.native_bin('c20_replay', [os.path.join(VERIF, 'native', 'c20_replay.cpp')], ['time_manager'], defines=[])
+            args = [str(ce.get(k, 0)) for k in ('ce_t1', 'ce_t2', 'ce_inc', 'ce_mtg', 'ce_ply', 'ce_side')]
+            out = ctx.sh([exe] + args, ok=(0, 1))
+            path = report.save_replay(ctx, r.q.name, {'harness': r.q.name, 'inputs': ce, 'native_output': out.strip()})
+            conf = 'REPRODUCED' in out and 'NOT-REPRODUCED' not in out
+            # a contract-level counterexample need not be realisable with the real libm / IEEE values: search the neighbourhood natively
+            if not conf:
+                out2 = ctx.sh([exe, 'scan'] + args, ok=(0, 1)); conf = 'REPRODUCED' in out2 and 'NOT-REPRODUCED' not in out2; out += out2
+            return {'confirmed': True if conf else None, 'strict': True, 'key': 'calc', 'path': path, 'text': '%s inputs %s | %s' % (r.q.name, {k: ce.get(k) for k in ('ce_t1', 'ce_t2', 'ce_inc', 'ce_mtg', 'ce_ply', 'ce_side')}, out.strip()[:300])}
+        path = report.save_replay(ctx, r.q.name, {'harness': r.q.name, 'inputs': ce})
+        return {'confirmed': None, 'strict': True, 'key': r.q.name, 'path': path, 'text': '%s: %s (contract-level obligation; inputs %s)' % (r.q.name, '; '.join(d for _, d in r.failed[:2]), {k: v for k, v in ce.items() if not isinstance(v, dict)})}
     return report.finish(ctx, res, wit, replay=replay,
-        assumptions=['libm exp/pow replaced by contracts: exp(x) in [0, 1e300] for |x| < 250, pow(b>=1, e<0) in [0,1], same argument => same value',
-                     'computeTimeForFixedLength contract (result in [0,T], monotone in T) is PROVED for movesToGo in %s and ASSUMED for larger movesToGo up to 200 (each extra iteration is one more bit-blasted FP addition)' % ns,
+        assumptions=['libm exp/pow replaced by contracts: exp(x) in [0, 1e300], pow(b>=1, e<0) in [0,1]',
+                     'IEEE-754 facts about MULTIPLICATION are assumed, not proved: for 0<=r<=1, x>=0: 0<=fl(r*x)<=x and fl(r*x) monotone in x; 10*trunc(fl(0.7*t))<=7*t and monotone for 0<=t<=86400000. '
+                     'They are attempted as queries (l_mul, l_mono, l_70) with kissat; bit-blasted double multiplication did not finish with any back end (kissat, cadical, minisat, z3, cvc5, cvc5 --solve-bv-as-int) in 300 s. '
+                     'This run: still assumed = %s; proved = %s' % (assumed, proved),
+                     'IEEE addition/division/truncation facts are proved precisely (l_add, l_div, l_trunc); importance() is proved on precise IEEE arithmetic',
                      'IEEE-754 double semantics as compiled by clang without -ffast-math; the release build uses -Ofast, which may reassociate floating point',
-                     'a counterexample that depends on values of exp/pow that the real libm never returns would not reproduce natively and is reported as an encoding disagreement'],
+                     'contract-level counterexamples (importance/IEEE values the real libm never produces) are replayed natively; if they do not reproduce they are still reported (strict) because the contract is what the proof rests on'],
         bounds={'remaining': '0..86400000 ms', 'increment': '0..600000 ms', 'movestogo': '0..200 (0 means 50)', 'ply': '0..1000', 'colours': 'both',
-                'fixed-length routine': 'total time 0..2^31-1, movesToGo in %s' % ns})
+                'fixed-length routine': 'total time 0..2^31-1, movesToGo 1..%d (all, symbolic)' % nmax},
+        extra={'assumed_ieee_multiplication_lemmas': assumed})
